@@ -356,6 +356,10 @@ func runC07(c *rt.Ctx) {
 	for i := 0; i < ngen; i++ {
 		c.Case("gen", i, func(o *rt.Obs) { c07Gen(c, o) })
 	}
+	njoin := c.N(300, 6000)
+	for i := 0; i < njoin; i++ {
+		c.Case("join", i, func(o *rt.Obs) { c07Join(c, o) })
+	}
 	corpus, err := prog.LoadCorpus(prog.RepoDir())
 	if err != nil || len(corpus) == 0 {
 		c.Note("corpus_error", fmt.Sprint(err))
@@ -370,6 +374,47 @@ func runC07(c *rt.Ctx) {
 	for i := range c07Directed {
 		c.Case("directed", i, func(o *rt.Obs) { c07DirectedCase(c, o, i) })
 	}
+}
+
+// c07Join is a family of its own: joins fed from a fork whose legs have every
+// combination of known sort state, in every join style, so that the
+// optimizer's propagation of sort directions into the join (and the kernel's
+// use of them) is exercised far more often than the general grammar does.
+func c07Join(c *rt.Ctx, o *rt.Obs) {
+	r := o.R
+	zctx := zed.NewContext()
+	key := rt.Pick(r, []string{"g", "v", "id"})
+	leg := func() string {
+		var parts []string
+		if r.Chance(1, 2) {
+			parts = append(parts, rt.Pick(r, []string{"where id % 2 == 0", "where v > 2", "where id % 3 != 1", "where g >= -1"}))
+		}
+		switch r.Intn(4) {
+		case 0:
+			parts = append(parts, "sort "+key)
+		case 1:
+			parts = append(parts, "sort "+key+" desc")
+		case 2:
+			parts = append(parts, "sort id")
+		}
+		if len(parts) == 0 {
+			return "pass"
+		}
+		return strings.Join(parts, " | ")
+	}
+	style := rt.Pick(r, []string{"", "inner ", "left ", "right ", "right ", "anti "})
+	args := " jv:=id"
+	if style == "anti " {
+		args = ""
+	}
+	text := fmt.Sprintf("where %s != null | fork (=> %s => %s) | %sjoin on %s=%s%s", key, leg(), leg(), style, key, key, args)
+	p := &prog.Program{Text: text, Mode: prog.ModeMultiset, ModeName: "multiset"}
+	in := prog.InputOpts{}
+	if r.Chance(1, 3) {
+		in.DistinctG = 3
+	}
+	vals := prog.GenInput(r, zctx, r.Range(2, 30), in)
+	c07Check(c, o, zctx, p, vals, nil, zbuf.PullerBatchValues, "")
 }
 
 func c07Gen(c *rt.Ctx, o *rt.Obs) {
